@@ -86,6 +86,24 @@ func renameIdent(t *term.Term, from, to string, expand func() *term.Term) (*term
 	return &cp, n
 }
 
+// c10Retyper replaces declared identifiers by declared identifiers of another
+// type: whether an operator above them is overloaded changes with the patch.
+type c10Retyper struct{ n int }
+
+func (p *c10Retyper) Enter(*ast.Node) {}
+func (p *c10Retyper) Exit(n *ast.Node) {
+	if id, ok := (*n).(*ast.IdentifierNode); ok {
+		switch id.Value {
+		case "M1":
+			ast.Patch(n, &ast.IdentifierNode{Value: "A"})
+			p.n++
+		case "M2":
+			ast.Patch(n, &ast.IdentifierNode{Value: "B"})
+			p.n++
+		}
+	}
+}
+
 func c10PatchOperators(c *runner.Ctx, idx uint64) {
 	r := c.R
 	tbi := int(idx % uint64(len(c17Tables)))
@@ -107,6 +125,38 @@ func c10PatchOperators(c *runner.Ctx, idx uint64) {
 	})
 	expectedSrc := term.Print(expected, term.PrintOpts{Full: true})
 	sample := newOpEnv(runner.NewRng(1))
+	// a patch that changes operand types: M1, M2 (Money) become A, B (int)
+	if ret, k1 := renameIdent(t, "M1", "A", nil); true {
+		ret, k2 := renameIdent(ret, "M2", "B", nil)
+		if k1+k2 > 0 {
+			retSrc := term.Print(ret, term.PrintOpts{})
+			opts := append([]expr.Option{expr.Env(*sample)}, g.tb.options()...)
+			p2, co2 := SafeCompile(retSrc, opts...)
+			p1, co1 := SafeCompile(plain, append(opts, expr.Patch(&c10Retyper{}))...)
+			c.Eval(2)
+			cas := map[string]interface{}{"source_given_to_compile": plain, "replacements": "M1 -> A, M2 -> B (made in Exit)", "equivalent_source": retSrc, "table": fmt.Sprint(map[string][]string(g.tb)),
+				"patched_compile": co1.String(), "equivalent_compile": co2.String()}
+			switch {
+			case co1.Panic != nil || co2.Panic != nil:
+				c.Violate("patch-operators-compile-panic", fmt.Sprint(co1.Panic, co2.Panic), cas)
+			case co2.Err != nil:
+				c.Count("patch_operator_equivalent_rejected", 1)
+			case co1.Err != nil:
+				c.Violate("patch-operators-rejected:retyping:"+errKeyOf(co1.Err), "a tree whose operand types the visitor changed is rejected although the equivalent source compiles: "+firstLine(co1.Err.Error()), cas)
+			default:
+				seed := r.U64()
+				e1, e2 := newOpEnv(runner.NewRng(seed)), newOpEnv(runner.NewRng(seed))
+				o1, o2 := SafeRun(p1, *e1), SafeRun(p2, *e2)
+				c.Eval(2)
+				c.Count("patch_operator_runs_compared", 1)
+				l1, l2 := strings.Join(e1.log.Calls, ";"), strings.Join(e2.log.Calls, ";")
+				if o1.Panic != nil || o2.Panic != nil || o1.Failed() != o2.Failed() || l1 != l2 || (!o1.Failed() && mon.Canon(o1.Val) != mon.Canon(o2.Val)) {
+					cas["patched_result"], cas["equivalent_result"], cas["patched_calls"], cas["equivalent_calls"] = o1.String(), o2.String(), l1, l2
+					c.Violate("patch-operators-effect:retyping", fmt.Sprintf("the patched tree gives %s [%s], the equivalent source %s [%s]", o1, l1, o2, l2), cas)
+				}
+			}
+		}
+	}
 	for _, inEnter := range []bool{false, true} {
 		opts := append([]expr.Option{expr.Env(*sample)}, g.tb.options()...)
 		p2, co2 := SafeCompile(expectedSrc, opts...)
